@@ -51,6 +51,10 @@ var queries = []string{
 	// fragments whose type condition is the union itself
 	`{ everyone { ...People } } fragment People on Everyone { ... on Admin { id hiding } ... on User { id email secret } }`,
 	`{ everyone { __typename ... on Everyone { ... on User { name age } ... on Admin { power } } } }`,
+	// __typename of the root object, alone, among other root fields, aliased
+	`{ __typename }`,
+	`{ __typename users { id email } }`,
+	`{ users { id } t: __typename devices { temp } }`,
 	// a mutation whose result needs fields of other services (the hops after it are queries)
 	`mutation { pickUser(id: 1) { id name email age device { temp } } }`,
 	`mutation { pickUser(id: 2) { boss { email secret } devices { tags owner { age } } } }`,
